@@ -2,6 +2,7 @@
 shapes) through the public constructors, records to_wire / from_wire / equality / re-encoding,
 and feeds faulted / random octet strings to dns.rdata.from_wire.  Drives and projects only: no
 verdicts here (the oracle is specs/Trace_RdataCodec.tla).  stdlib + dns only."""
+import os
 import random
 import socket
 
@@ -544,6 +545,8 @@ def _run_job(job):
     rdclass = CLASSES[t["class"]]
     rdtype = job["utype"] if key == "UNKNOWN" else t["code"]
     tr = {"tid": job["tid"], "ty": key, "ev": []}
+    if job["k"] == "fresh":
+        return run_fresh(job["order"], [job["item"]])[0]
     if job["k"] == "vec":
         v = job["v"]
         wire = None
@@ -614,33 +617,60 @@ def foreign_event(key, rdtype, wire):
 
 
 def fresh_traces(order, items):
-    """Runs INSIDE a fresh interpreter (see run_fresh): for every type, in table order, either
-    ("foreign-first") first decode its RDATA in a class without implementation and then do the
-    ordinary encode/decode events in its home class, or ("home-first", the control) the other
-    way round.  The registry of dns.rdata is process-global, so the first lookup of a type in a
-    process matters; nothing else has touched it here."""
+    """Runs INSIDE a fresh interpreter (see run_fresh).  For every type, in the given order:
+    "foreign-first": decode its RDATA in a class without implementation (the very first lookup of
+    that type in the process), then the ordinary encode/decode events in its home class;
+    "home-first" (control): the other way round.  The registry of dns.rdata is process-global,
+    so the order of first lookups is an input of the scenario."""
     out = []
     for it in items:
         key = it["ty"]
         t = TABLE[key]
         rdclass, rdtype = CLASSES[t["class"]], t["code"]
         tr = {"tid": "fresh:%s:%s" % (order, key), "ty": key, "ev": []}
-        try:
-            home = []
+
+        def home():
+            evs = []
             for v, rel in it["vs"]:
                 for use_origin in ((True,) if rel else (False, True)):
-                    ev, w = enc_event(key, rdclass, rdtype, v, use_origin)
+                    ev, _w = enc_event(key, rdclass, rdtype, v, use_origin)
                     ev["fts"] = []
-                    home.append(ev)
-            foreign = foreign_event(key, rdtype, it["wire"])
+                    evs.append(ev)
+                    if ev.get("built") != "ok" or ev.get("wire") == [-1]:
+                        return evs
+            return evs
+
+        try:
             if order == "foreign-first":
-                # the events above already ran: redo in the right order in this branch instead
-                pass
-            tr["ev"] = home + [foreign]
+                tr["ev"] = [foreign_event(key, rdtype, it["wire"])] + home()
+            else:
+                tr["ev"] = home() + [foreign_event(key, rdtype, it["wire"])]
         except (Exception, Hang) as e:  # noqa: BLE001
             tr["ev"] = [{"op": "crash", "exc": type(e).__name__, "msg": str(e)[:200]}]
+        finally:
+            watchdog(False)
         out.append(tr)
     return out
+
+
+def run_fresh(order, items):
+    """fresh_traces in a NEW interpreter (not a fork of this one: the parent has already looked up
+    every type).  Returns the traces; a failing child becomes crash events."""
+    import json
+    import subprocess
+    import sys
+    env = dict(os.environ)
+    env["PYTHONHASHSEED"] = "0"
+    env["PYTHONDONTWRITEBYTECODE"] = "1"
+    code = ("import sys, json; sys.path.insert(0, %r); from drivers import c02_rdata as d; "
+            "j = json.load(sys.stdin); json.dump(d.fresh_traces(j['order'], j['items']), sys.stdout)" % core.ROOT)
+    try:
+        p = subprocess.run([sys.executable, "-c", code], input=json.dumps({"order": order, "items": items}),
+                           capture_output=True, text=True, env=env, cwd=core.ROOT, timeout=600)
+        return json.loads(p.stdout)
+    except Exception as e:  # noqa: BLE001
+        return [{"tid": "fresh:%s:%s" % (order, it["ty"]), "ty": it["ty"],
+                 "ev": [{"op": "crash", "exc": type(e).__name__, "msg": str(e)[:200]}]} for it in items]
 
 
 def aliasmode_probe():
